@@ -1,0 +1,51 @@
+//go:build verif
+
+package serialization
+
+import (
+	"bytes"
+	"reflect"
+	"time"
+
+	"github.com/jdillenkofer/pithos/internal/auditlog"
+)
+
+// Ghost scenario for the contract in zz_contracts_verif.go (see /verif/DESIGN.md): encode one LOG entry of a current
+// format version with the chosen serializer and decode it again. The deductive engine cannot follow the codecs
+// (encoding/json, io.Reader loops); this function is the oracle of a BOUNDED random search on the real code.
+//
+// kind 0: binary, 1: JSON, 2: indented JSON. Versions 2..CurrentVersion (version 1 entries are decoded into the v2
+// shape by design). The timestamp is built from seconds, nanoseconds and a zone offset, because an entry may be
+// stamped in any zone and must come back as the same instant.
+func verifRoundTrip(kind uint8, versionSeed uint8, sec int32, nsec uint32, zoneMinutes int16, d auditlog.LogDetails, fill byte) bool {
+	version := uint16(2) + uint16(versionSeed)%(auditlog.CurrentVersion-1)
+	if version < 3 {
+		d.Resource.SourceBucket, d.Resource.SourceKey = "", "" // not part of formats before v3
+	}
+	loc := time.FixedZone("z", int(zoneMinutes%(14*60))*60)
+	ts := time.Unix(int64(sec), int64(nsec%1000000000)).In(loc)
+	mk := func(n int) []byte { return bytes.Repeat([]byte{fill}, n) }
+	e := &auditlog.Entry{Version: version, Timestamp: ts, Type: auditlog.EntryTypeLog, Details: &d,
+		PreviousHash: mk(64), Hash: mk(64), SignatureEd25519: mk(64)}
+	var s Serializer
+	switch kind % 3 {
+	case 0:
+		s = &BinarySerializer{}
+	case 1:
+		s = &JsonSerializer{}
+	default:
+		s = &JsonSerializer{Indent: true}
+	}
+	var buf bytes.Buffer
+	if err := s.Encode(&buf, e); err != nil {
+		return false
+	}
+	got, err := s.NewDecoder(&buf).Decode()
+	if err != nil || got == nil {
+		return false
+	}
+	gd, ok := got.Details.(*auditlog.LogDetails)
+	return ok && got.Version == e.Version && got.Timestamp.Equal(e.Timestamp) && got.Type == e.Type &&
+		reflect.DeepEqual(*gd, d) && bytes.Equal(got.PreviousHash, e.PreviousHash) && bytes.Equal(got.Hash, e.Hash) &&
+		bytes.Equal(got.SignatureEd25519, e.SignatureEd25519)
+}
